@@ -102,7 +102,10 @@ impl DecisionTracker {
         #[cfg(feature = "verif-hooks")]
         self.verif_events.push(crate::verif::VerifEvent::UndoLast);
 
-        self.propagate_index = self.stack.len();
+        // Decisions that are still on the stack but were never propagated (e.g.
+        // a rejected soft requirement that was assigned `false` right before
+        // the next one was tried and rejected as well) must stay unpropagated.
+        self.propagate_index = self.propagate_index.min(self.stack.len());
 
         let top_decision = self.stack.last().unwrap();
         (decision, self.map.level(top_decision.variable))
